@@ -131,9 +131,9 @@ Proof.
 Qed.
 
 (* ---- projections of the setters ------------------------------------------------------------------ *)
-Ltac ss := cbn [size items inflight stopped waiting tok lock prods cancelled results acc hand fin pool held nobj pick cons corrupt dropped
+Ltac ss := cbn [size items inflight stopped waiting tok lock prods cancelled results acc hand fin pool held nobj pick cons corrupt dropped faulty
                 set_size set_items set_inflight set_stopped set_waiting set_tok set_lock set_prods
-                set_cancelled set_results set_acc set_hand set_fin set_pool set_held set_nobj set_pick set_cons set_corrupt set_dropped setp fst snd] in *.
+                set_cancelled set_results set_acc set_hand set_fin set_pool set_held set_nobj set_pick set_cons set_corrupt set_dropped set_faulty setp fst snd] in *.
 
 (* destruct the innermost match of the goal *)
 Ltac dmatch :=
@@ -147,10 +147,11 @@ Ltac dmatch :=
 
 Ltac unfold_step :=
   unfold step, cread, cread_faulty, park, offer, try_add, enqueue, read, done, signal, deliver, handoff, find_res, lock_free, pool_get, pool_put, bcast;
-  cbn [size items inflight stopped waiting tok lock prods cancelled results acc hand fin pool held nobj pick cons corrupt dropped
+  cbn [size items inflight stopped waiting tok lock prods cancelled results acc hand fin pool held nobj pick cons corrupt dropped faulty
        set_size set_items set_inflight set_stopped set_waiting set_tok set_lock set_prods
-       set_cancelled set_results set_acc set_hand set_fin set_pool set_held set_nobj set_pick set_cons set_corrupt set_dropped];
-  try match goal with NF : corrupt _ = [] |- _ => rewrite ?NF; cbv beta iota end.
+       set_cancelled set_results set_acc set_hand set_fin set_pool set_held set_nobj set_pick set_cons set_corrupt set_dropped set_faulty];
+  try match goal with NF : corrupt _ = [] |- _ => rewrite ?NF; cbv beta iota end;
+  try match goal with NF2 : faulty _ = [] |- _ => rewrite ?NF2; cbn [find_id] end.
 
 (* goal:  step c s l = Some (s', z) -> G s'   ==>  one goal per path through the code *)
 Ltac step_cases :=
@@ -263,6 +264,20 @@ Lemma reach_nofault (P : label -> Prop) c s :
 Proof.
   intros HP R. revert s R. apply (reachP_ind P c (fun s => corrupt s = [])); [reflexivity|].
   intros s0 l s1 z _ I Pl H. eapply nofault_step; eauto.
+Qed.
+
+Lemma nofault2_step c s l s' z :
+  faulty s = [] -> wf_label c l -> step c s l = Some (s', z) -> faulty s' = [].
+Proof.
+  intros NF2 W H. revert W. unfold wf_label. revert H.
+  step_cases; intros W; try contradiction; try assumption; try discriminate; auto.
+Qed.
+
+Lemma reach_nofault2 (P : label -> Prop) c s :
+  (forall l, P l -> wf_label c l) -> reachP P c s -> faulty s = [].
+Proof.
+  intros HP R. revert s R. apply (reachP_ind P c (fun s => faulty s = [])); [reflexivity|].
+  intros s0 l s1 z _ I Pl H. eapply nofault2_step; eauto.
 Qed.
 
 Lemma sizeinv_step c s l s' z :
